@@ -402,7 +402,41 @@ func (s *Sim) opMisuse(op *Op) {
 			return
 		}
 		r := RelTypes[abs(op.N)%len(RelTypes)]
-		switch abs(int(op.X)) % 9 {
+		switch abs(int(op.X)) % 10 {
+		case 9:
+			// a relation component is added without its target; the one target that is passed
+			// names a relation component the entity already has
+			e := s.M.PickLive(op.E)
+			if e == nil {
+				s.skip(op)
+				return
+			}
+			r1, r2 := -1, -1
+			for k := range RelTypes {
+				t := RelTypes[(k+abs(op.N))%len(RelTypes)]
+				if e.Has(t) && r1 < 0 {
+					r1 = t
+				} else if !e.Has(t) && r2 < 0 {
+					r2 = t
+				}
+			}
+			if r1 < 0 || r2 < 0 {
+				s.skip(op)
+				return
+			}
+			tg := ecs.Entity{}
+			if o := s.M.PickLive(op.E + 1); o != nil && op.N%2 == 0 {
+				tg = o.H
+			}
+			if op.N%3 == 0 {
+				s.expectPanic("Unsafe.Exchange", "missing_target_other", func() {
+					s.W.Unsafe().Exchange(e.H, []ecs.ID{s.ids[r2]}, nil, ecs.RelID(s.ids[r1], tg))
+				})
+			} else {
+				s.expectPanic("Unsafe.AddRel", "missing_target_other", func() {
+					s.W.Unsafe().AddRel(e.H, []ecs.ID{s.ids[r2]}, ecs.RelID(s.ids[r1], tg))
+				})
+			}
 		case 7, 8:
 			// two relation components, as many targets as relation components, but both for the
 			// same component: the target of the other one is omitted
@@ -413,7 +447,7 @@ func (s *Sim) opMisuse(op *Op) {
 					t2 = e2.H
 				}
 			}
-			if abs(int(op.X))%9 == 7 {
+			if abs(int(op.X))%10 == 7 {
 				idx := -1
 				for k := 0; k < len(MapTuples); k++ {
 					i := NumMapSingles + (abs(op.Ad)+k)%(len(MapTuples)-NumMapSingles)
@@ -453,7 +487,7 @@ func (s *Sim) opMisuse(op *Op) {
 				s.skip(op)
 				return
 			}
-			if abs(int(op.X))%9 == 4 {
+			if abs(int(op.X))%10 == 4 {
 				s.expectPanic("Map.Add", "missing_target", func() {
 					singleTargets = singleTargets[:0]
 					s.mapper(r).Add(e.H, []uint64{1}, nil)
